@@ -26,16 +26,16 @@ func c05src(n ast.Node) string {
 	return strings.Join(strings.Fields(b.String()), " ")
 }
 
-func leanStr(s string) string {
+func leanStr05(s string) string {
 	s = strings.ReplaceAll(s, "\\", "\\\\")
 	s = strings.ReplaceAll(s, "\"", "\\\"")
 	return "\"" + s + "\""
 }
 
-func leanStrList(xs []string) string {
+func leanStrList05(xs []string) string {
 	q := make([]string, len(xs))
 	for i, x := range xs {
-		q[i] = leanStr(x)
+		q[i] = leanStr05(x)
 	}
 	return "[" + strings.Join(q, ", ") + "]"
 }
@@ -178,9 +178,9 @@ func init() {
 		if !flagGuard {
 			fail("C05: ClientAuth is no longer guarded by m.RequireClientCert (guards %v)", guards)
 		}
-		fmt.Fprintf(b, "/-- cert.go ServerConfig.GetTlsConfig: conditions enclosing `conf.ClientAuth = …` -/\ndef serverAuthGuards : List String := %s\n", leanStrList(guards))
+		fmt.Fprintf(b, "/-- cert.go ServerConfig.GetTlsConfig: conditions enclosing `conf.ClientAuth = …` -/\ndef serverAuthGuards : List String := %s\n", leanStrList05(guards))
 		fmt.Fprintf(b, "/-- true iff ClientAuth is set on the success path (`err == nil`) of Config.GetTlsConfig -/\ndef serverAuthGuardErrNil : Bool := %v\n", errNil)
-		fmt.Fprintf(b, "def serverAuthValue : String := %s\n\n", leanStr(rhs))
+		fmt.Fprintf(b, "def serverAuthValue : String := %s\n\n", leanStr05(rhs))
 
 		// ---- 2. every site that sets InsecureSkipVerify
 		type site struct{ file, fn, rhs, guard string }
@@ -236,7 +236,7 @@ func init() {
 			if i == len(sites)-1 {
 				sep = ""
 			}
-			fmt.Fprintf(b, "  (%s, %s, %s, %s)%s\n", leanStr(s.file), leanStr(s.fn), leanStr(s.rhs), leanStr(s.guard), sep)
+			fmt.Fprintf(b, "  (%s, %s, %s, %s)%s\n", leanStr05(s.file), leanStr05(s.fn), leanStr05(s.rhs), leanStr05(s.guard), sep)
 		}
 		fmt.Fprintf(b, "]\n\n")
 
@@ -303,7 +303,7 @@ func init() {
 				fail("C05: unrecognised derivation of ServerName (%q) in startTls", expr)
 			}
 		}
-		fmt.Fprintf(b, "/-- client.go startTls: right-hand side of `tlsConfig.ServerName = …` -/\ndef startTlsServerNameExpr : String := %s\n", leanStr(expr))
+		fmt.Fprintf(b, "/-- client.go startTls: right-hand side of `tlsConfig.ServerName = …` -/\ndef startTlsServerNameExpr : String := %s\n", leanStr05(expr))
 		fmt.Fprintf(b, "/-- true iff that value is cc.host with the port removed by net.SplitHostPort (cc.host itself when it has no port) -/\ndef startTlsStripsPort : Bool := %v\n\n", strips)
 
 		// ---- 4. the host argument every upstream kind passes to NewClientConnection; Socket's tls.Dial name
@@ -326,7 +326,7 @@ func init() {
 			if i == len(kinds)-1 {
 				sep = ""
 			}
-			fmt.Fprintf(b, "  (%s, %s, %s, %s)%s\n", leanStr(k.kind), leanStr(k.file), leanStr(c05src(calls[0].Args[2])), leanStr(c05src(calls[0].Args[3])), sep)
+			fmt.Fprintf(b, "  (%s, %s, %s, %s)%s\n", leanStr05(k.kind), leanStr05(k.file), leanStr05(c05src(calls[0].Args[2])), leanStr05(c05src(calls[0].Args[3])), sep)
 		}
 		fmt.Fprintf(b, "]\n\n")
 
@@ -364,7 +364,7 @@ func init() {
 			fail("C05: unrecognised ServerName expression %q in Socket.Connect", sockName)
 		}
 		fmt.Fprintf(b, "/-- socket.go Connect: address expression handed to tls.Dial, and the ServerName it sets on the config before (\"\" = none) -/\n")
-		fmt.Fprintf(b, "def socketDialAddrExpr : String := %s\ndef socketDialServerNameExpr : String := %s\n", leanStr(c05src(dials[0].Args[1])), leanStr(sockName))
+		fmt.Fprintf(b, "def socketDialAddrExpr : String := %s\ndef socketDialServerNameExpr : String := %s\n", leanStr05(c05src(dials[0].Args[1])), leanStr05(sockName))
 		fmt.Fprintf(b, "/-- true iff Socket.Connect names the upstream host (url Hostname) for verification; false = crypto/tls derives the name from the dialled (resolved) address -/\ndef socketDialSetsHostname : Bool := %v\n\n", sets)
 
 		// ---- 5. UDP shared secret: both pbkdf2 calls, the salt, the cipher
@@ -414,7 +414,7 @@ func init() {
 				fail("C05: expected one kcp.NewAESBlockCrypt(key) call in %s.%s", recv, fn)
 			}
 			fmt.Fprintf(b, "/-- %s %s.%s: arguments of pbkdf2.Key, derivation of pass/salt, argument of kcp.NewAESBlockCrypt -/\n", file, recv, fn)
-			fmt.Fprintf(b, "def pbkdf2Args%s : List String := %s\ndef secretDerivation%s : List String := %s\ndef cipherArg%s : String := %s\n", tag, leanStrList(args), tag, leanStrList(deriv), tag, leanStr(carg))
+			fmt.Fprintf(b, "def pbkdf2Args%s : List String := %s\ndef secretDerivation%s : List String := %s\ndef cipherArg%s : String := %s\n", tag, leanStrList05(args), tag, leanStrList05(deriv), tag, leanStr05(carg))
 			if len(args) == 5 {
 				en := fileConsts(f, nil)
 				iter, klen := evalExpr(calls[0].Args[2], en), evalExpr(calls[0].Args[3], en)
